@@ -414,7 +414,11 @@ where
                     format!("Path expected: {path_str}"),
                 ));
             }
-            let path = Path::from_escaped_string(path_str.trim()).map_err(|e| {
+            // Strip only the indentation and the line terminator;
+            // leading and trailing whitespace belongs to the file name.
+            let path_line = path_str.strip_suffix('\n').unwrap_or(path_str);
+            let path_line = path_line.strip_suffix('\r').unwrap_or(path_line);
+            let path = Path::from_escaped_string(&path_line[4..]).map_err(|e| {
                 Error::new(
                     ErrorKind::InvalidData,
                     format!("Invalid path {path_str}: {e}"),
